@@ -175,4 +175,38 @@ SameDef(a, b) == /\ Len(a) = Len(b)
                  /\ \A i \in DOMAIN a : /\ a[i].n = b[i].n /\ a[i].g = b[i].g
                                         /\ (a[i].m = b[i].m \/ a[i].m = 2 \/ b[i].m = 2)
                                         /\ SameDef(a[i].sub, b[i].sub)
+
+\* ---- the compiler's group table (compiler/f8c.cpp parse_groups, find_group, generate_group_bodies) ---------------
+\* One table of group definitions per count field, keyed by an identity of the definition; every occurrence of a
+\* group uses the traits of the *first* definition registered under its key.  Ideal design (D = {}): the key is the
+\* definition itself.  Deviations: "flags_order_not_in_identity" (the key digests member numbers and nested groups
+\* only), "hash_identity" (the key is the 32-bit rothash of that digest).
+Key(D, ms) == IF "hash_identity" \in D THEN GroupHash(ms)
+              ELSE IF "flags_order_not_in_identity" \in D THEN MemberStruct(ms)
+              ELSE ms
+\* registration order: header, trailer, messages in document order; inside a container depth first, a group after
+\* its nested groups (parse_groups registers a definition when its nested groups have been parsed)
+RECURSIVE RegOf(_)
+RegOf(ms) == IF ms = <<>> THEN <<>>
+             ELSE (IF Head(ms).g THEN RegOf(Head(ms).sub) \o << [n |-> Head(ms).n, sub |-> Head(ms).sub] >> ELSE <<>>) \o RegOf(Tail(ms))
+RegSeq(X) == RegOf(Members(X, X.hdr)) \o RegOf(Members(X, X.trl))
+             \o SeqCat([i \in DOMAIN X.msgs |-> RegOf(Members(X, X.msgs[i].items))])
+\* the definition whose traits an occurrence (count field n, members ms) is given
+Winner(D, X, n, ms) ==
+    LET reg == RegSeq(X)
+        first == CHOOSE i \in DOMAIN reg : /\ reg[i].n = n /\ Key(D, reg[i].sub) = Key(D, ms)
+                                           /\ \A j \in 1..(i - 1) : ~(reg[j].n = n /\ Key(D, reg[j].sub) = Key(D, ms))
+    IN reg[first].sub
+\* members as the generated code presents them: a group's traits are its winner's, recursively
+RECURSIVE Compiled(_, _, _)
+Compiled(D, X, ms) == [i \in DOMAIN ms |-> IF ms[i].g THEN [ms[i] EXCEPT !.sub = Compiled(D, X, Winner(D, X, ms[i].n, ms[i].sub))] ELSE ms[i]]
+
+\* C13's group clause: every group occurrence has the members, flags, order and nested groups of its own definition
+OwnTraitsOf(D, X) == \A c \in Containers(X) : SameDef(Compiled(D, X, c[2]), c[2])
+\* C14: two definitions of one count field that differ in member fields or nested groups never share traits
+LastOf(s) == s[Len(s)]
+DistinctDefsOf(D, X) ==
+    \A o1, o2 \in AllGroupOccs(X) :
+        (LastOf(o1[2]) = LastOf(o2[2]) /\ MemberStruct(o1[3]) # MemberStruct(o2[3]))
+            => Winner(D, X, LastOf(o1[2]), o1[3]) # Winner(D, X, LastOf(o2[2]), o2[3])
 =============================================================================
